@@ -223,7 +223,32 @@ func checkWaitGroupFanout(c *core.Ctx, r *core.Report, rule string, g *ssa.Go, c
 		}
 	}
 	var at ssa.Instruction = g
-	if core.InnermostLoop(parent, g.Block()) == nil {
+	var grp *groupHelper
+	if ghs := groupHelperOf(c, g); len(ghs) == 1 {
+		// a WaitGroup behind a helper type: the helper's call stands for Add(1) + go, the function handed over is
+		// the payload; Wait is the helper type's method that waits on the same field, called on the same object
+		grp = ghs[0]
+		at, parent = grp.site, grp.site.Parent()
+		adds, waits = nil, nil
+		for _, ci := range core.Calls(parent) {
+			cal := ci.Common().StaticCallee()
+			if cal == nil || cal.Signature.Recv() == nil || len(ci.Common().Args) == 0 || !core.Equiv(ci.Common().Args[0], grp.site.Call.Args[0]) {
+				continue
+			}
+			for _, c2 := range core.Calls(cal) {
+				if core.IsExtCall(c2.Common(), "(*sync.WaitGroup).Wait") {
+					if f, ok := wgFieldOf(c2.Common().Args[0]); ok && f == grp.field {
+						waits = append(waits, ci)
+					}
+				}
+			}
+		}
+		body = grp.payload
+	} else if len(ghs) > 1 {
+		r.Undecided(rule+".R1", cons+":add", pos, "the WaitGroup helper is used at several sites: each would have to be decided on its own")
+		return body, false
+	}
+	if grp == nil && core.InnermostLoop(parent, g.Block()) == nil {
 		if site := launcherSite(c, g); site != nil {
 			// the loop calls a helper that starts the goroutine: the call stands for the go statement
 			at, parent = site, site.Parent()
@@ -245,7 +270,11 @@ func checkWaitGroupFanout(c *core.Ctx, r *core.Report, rule string, g *ssa.Go, c
 	}
 	// a variable that the loop keeps writing must reach the goroutine as an argument, not by capture
 	// (go.mod declares a Go version with shared loop variables; SSA shows a per-iteration variable as allocated inside the loop)
-	if mc, isMC := g.Call.Value.(*ssa.MakeClosure); isMC {
+	capt, isMC := g.Call.Value.(*ssa.MakeClosure)
+	if grp != nil {
+		capt, isMC = grp.mc, grp.mc != nil
+	}
+	if mc := capt; isMC {
 		for _, b := range mc.Bindings {
 			al, isAl := b.(*ssa.Alloc)
 			if !isAl || loop.Blocks[al.Block()] {
@@ -287,6 +316,9 @@ func checkWaitGroupFanout(c *core.Ctx, r *core.Report, rule string, g *ssa.Go, c
 				}
 			}
 		}
+	}
+	if grp != nil {
+		okAdd, detail = true, "Add(1) inside the group helper, before its go statement, once per call"
 	}
 	r.Check(okAdd, rule+".R1", cons+":add", pos, "the WaitGroup counter is raised by exactly the number of goroutines started: "+detail)
 	// exactly one go per iteration on every path through the body: the go block post-dominates the loop body entry
@@ -417,7 +449,7 @@ func c14(c *core.Ctx, r *core.Report) {
 		r.Fail("C14.R2", "Close@"+core.FnName(fn), c.Pos(site.Pos()), "Close is invoked by go/defer directly, without a way to wait for it")
 		return
 	}
-	gos := goStatementsOf(fn)
+	gos := fanGosOf(c, fn)
 	if len(gos) == 0 {
 		// sequential idiom
 		cons := "sequential@" + core.FnName(fn)
@@ -454,7 +486,26 @@ func c14(c *core.Ctx, r *core.Report) {
 	// R2: Close on the parameter, exactly once
 	recv := core.Norm(call.Common().Value)
 	_, isParam := recv.(*ssa.Parameter)
-	r.Check(isParam, "C14.R2", cons+":close-on-parameter", c.Pos(site.Pos()), "Close is invoked on the goroutine's own parameter (a captured range variable would be shared between iterations under go 1.20 semantics)")
+	// ... or on a captured per-iteration copy (`m := m` inside the loop body), which is as private as a parameter
+	var perIter ssa.Value
+	if ld, isLoad := call.Common().Value.(*ssa.UnOp); isLoad && !isParam {
+		if fv, isFV := ld.X.(*ssa.FreeVar); isFV {
+			if ghs := groupHelperOf(c, g); len(ghs) == 1 && ghs[0].mc != nil {
+				for i, x := range fn.FreeVars {
+					if x == fv && i < len(ghs[0].mc.Bindings) {
+						if al, isAl := ghs[0].mc.Bindings[i].(*ssa.Alloc); isAl {
+							if lp := core.InnermostLoop(al.Parent(), al.Block()); lp != nil && lp == core.InnermostLoop(al.Parent(), ghs[0].site.Block()) {
+								if st := core.SingleStore(al); st != nil {
+									perIter = core.Norm(st)
+								}
+							}
+						}
+					}
+				}
+			}
+		}
+	}
+	r.Check(isParam || perIter != nil, "C14.R2", cons+":close-on-parameter", c.Pos(site.Pos()), "Close is invoked on the goroutine's own parameter or on a per-iteration copy of the element (a captured range variable would be shared between iterations under go 1.20 semantics)")
 	r.Check(!core.InLoop(site.Block()) && c.PostDom(fn).PostDominates(site.Block(), fn.Blocks[0]), "C14.R2", cons+":close-once", c.Pos(site.Pos()), "Close is invoked exactly once on every path through the goroutine body")
 	// the argument passed is the current element
 	rl := core.RangeLoopOf(parent, g.Block())
@@ -465,7 +516,11 @@ func c14(c *core.Ctx, r *core.Report) {
 		}
 		return nil
 	}
-	if rl == nil {
+	if ghs := groupHelperOf(c, g); rl == nil && len(ghs) == 1 {
+		parent, atBlock = ghs[0].site.Parent(), ghs[0].site.Block()
+		rl = core.RangeLoopOf(parent, atBlock)
+		elemArg = func(int) ssa.Value { return perIter }
+	} else if rl == nil {
 		if site := launcherSite(c, g); site != nil {
 			// the loop calls a helper that starts the goroutine with its own parameter: follow it to the call
 			parent, atBlock = site.Parent(), site.Block()
@@ -486,7 +541,7 @@ func c14(c *core.Ctx, r *core.Report) {
 			}
 		}
 	}
-	if rl != nil && isParam {
+	if rl != nil && (isParam || perIter != nil) {
 		idx := -1
 		for i, p := range fn.Params {
 			if ssa.Value(p) == recv {
@@ -629,6 +684,129 @@ func staticCallsOf(fn *ssa.Function) []*ssa.Call {
 		callIndex.Store(prog, idx)
 	}
 	return idx[fn]
+}
+
+// groupHelper describes a WaitGroup wrapped in a helper type: `func (g *T) Go(fn func()) { g.wg.Add(1); go func() {
+// defer g.wg.Done(); fn() }() }`.  A call of the helper stands for Add(1) + go statement, the function handed to it
+// is the goroutine's payload.
+type groupHelper struct {
+	helper  *ssa.Function
+	site    *ssa.Call     // the call of the helper in the spawning function
+	payload *ssa.Function // the function literal handed over
+	mc      *ssa.MakeClosure
+	field   core.FieldRef // the WaitGroup field of the helper's receiver
+}
+
+func wgFieldOf(v ssa.Value) (core.FieldRef, bool) {
+	v = core.Norm(v)
+	if fa, ok := v.(*ssa.FieldAddr); ok {
+		return core.FieldOfAddr(fa)
+	}
+	return core.FieldRef{}, false
+}
+
+// groupHelperOf recognises g as the go statement of a group helper and returns its use sites.
+func groupHelperOf(c *core.Ctx, g *ssa.Go) []*groupHelper {
+	h := g.Parent()
+	wrapper := goBodyOf(g)
+	if h == nil || wrapper == nil || wrapper.Parent() != h || h.Signature.Recv() == nil || core.InnermostLoop(h, g.Block()) != nil {
+		return nil
+	}
+	// exactly one func-typed parameter, called exactly once by the wrapper
+	pi := -1
+	for i, p := range h.Params {
+		if sig, ok := p.Type().Underlying().(*types.Signature); ok && sig.Params().Len() == 0 && sig.Results().Len() == 0 {
+			if pi >= 0 {
+				return nil
+			}
+			pi = i
+		}
+	}
+	if pi < 0 {
+		return nil
+	}
+	nDyn, nGo := 0, 0
+	var doneField, addField core.FieldRef
+	for _, ci := range core.Calls(wrapper) {
+		com := ci.Common()
+		if _, isB := com.Value.(*ssa.Builtin); isB {
+			continue
+		}
+		switch {
+		case core.IsExtCall(com, "(*sync.WaitGroup).Done"):
+			doneField, _ = wgFieldOf(com.Args[0])
+		case com.StaticCallee() == nil && !com.IsInvoke():
+			nDyn++
+		case core.IsLogCall(com):
+		default:
+			return nil
+		}
+	}
+	var add ssa.CallInstruction
+	for _, ci := range core.Calls(h) {
+		if _, isGo := ci.(*ssa.Go); isGo {
+			nGo++
+		}
+		if core.IsExtCall(ci.Common(), "(*sync.WaitGroup).Add") {
+			if k, ok := core.ConstInt(ci.Common().Args[1]); ok && k == 1 {
+				add = ci
+				addField, _ = wgFieldOf(ci.Common().Args[0])
+			}
+		}
+	}
+	if nDyn != 1 || nGo != 1 || add == nil || !core.Dominates(add, g) || doneField.Owner == nil || doneField != addField {
+		return nil
+	}
+	if h.Object() == nil || len(c.FuncValueUses(h)) != 0 {
+		return nil
+	}
+	var out []*groupHelper
+	for _, site := range staticCallsOf(h) {
+		args := site.Call.Args
+		if pi >= len(args) {
+			return nil
+		}
+		payload := core.ClosureOf(args[pi])
+		if payload == nil || payload.Blocks == nil {
+			return nil
+		}
+		gh := &groupHelper{helper: h, site: site, payload: payload, field: addField}
+		v := args[pi]
+		for i := 0; i < 4 && v != nil; i++ {
+			switch x := v.(type) {
+			case *ssa.MakeClosure:
+				gh.mc = x
+				v = nil
+			case *ssa.ChangeType:
+				v = x.X
+			case *ssa.MakeInterface:
+				v = x.X
+			default:
+				v = nil
+			}
+		}
+		out = append(out, gh)
+	}
+	return out
+}
+
+// fanGosOf: the go statements that run fn - directly, or as the payload handed to a group helper.
+func fanGosOf(c *core.Ctx, fn *ssa.Function) []*ssa.Go {
+	out := goStatementsOf(fn)
+	if len(out) > 0 {
+		return out
+	}
+	goStatementsOf(fn) // make sure the index exists
+	if v, ok := goIndex.Load(fn.Prog); ok {
+		for _, g := range v.([]*ssa.Go) {
+			for _, gh := range groupHelperOf(c, g) {
+				if gh.payload == fn {
+					out = append(out, g)
+				}
+			}
+		}
+	}
+	return out
 }
 
 // launcherSite: the go statement g is the one thing an unexported helper does on every call (it is not in a loop
